@@ -34,6 +34,7 @@ C07 — line-protocol driver of the models (core only).  One op per line, one an
   wresp <code> <errno> <msg> / wrespdec      (msgservice.WritePointsResponse)
   sreq <points> <n> {-|only:ids} / sreqdec   (msgservice.WriteStreamPointsRequest)
   dw <type> <identity> <id> <data> / dwdec   (raftlog.DataWrapper)
+  preagg <ty> <self> <v…> / preaggdec <ty> <hex>   (pre-aggregation blocks; ty ∈ i f b s t)
 
 `zlen` is the observed length of the zstd (snappy, …) payload for the block's raw bytes: the
 library output is opaque to the model, only its length takes part in the mode decision.  In a
@@ -48,6 +49,7 @@ import OG.C07.StringFrame
 import OG.C07.ColSeg
 import OG.C07.MetaCodec
 import OG.C07.WireCodec
+import OG.C07.PreAgg
 
 namespace OG.C07
 
@@ -591,6 +593,71 @@ def stepWire (op rest : String) : Option String :=
             ++ hexOrDash d.data)
   | _ => none
 
+/-! ### pre-aggregation blocks -/
+
+def parseI64s (toks : List String) : Option (List Int) :=
+  toks.mapM fun t =>
+    match t.toInt? with
+    | some i => if -(2 ^ 63 : Int) ≤ i ∧ i < 2 ^ 63 then some i else none
+    | none => none
+
+def showI64s (vs : List Int) : String := " ".intercalate (vs.map toString)
+
+def stepPreAgg (op rest : String) : Option String :=
+  match op with
+  | "preagg" =>
+    some (match rest.splitOn " " with
+      | ty :: self :: vs =>
+        match parseI64s vs with
+        | none => "bad-op"
+        | some vs =>
+          if self ≠ "0" ∧ self ≠ "1" then "bad-op"
+          else
+            let sf := self == "1"
+            match ty, vs with
+            | "i", [a, b, c, d, e, f] => "ok " ++ hexOrDash (marshalIntPreAgg sf ⟨a, b, c, d, e, f⟩)
+            | "f", [a, b, c, d, e, f] =>
+              "ok " ++ hexOrDash (marshalFloatPreAgg sf ⟨ofI a, ofI b, c, d, ofI e, f⟩)
+            | "b", [c, a, b, mn, mx] =>
+              if mn < -128 ∨ mn ≥ 128 ∨ mx < -128 ∨ mx ≥ 128 then "bad-op"
+              else "ok " ++ hexOrDash (marshalBoolPreAgg ⟨c, a, b, mn, mx⟩)
+            | "s", [c] => "ok " ++ hexOrDash (marshalStringPreAgg c)
+            | "t", [c] => if c < 0 ∨ c ≥ 2 ^ 32 then "bad-op" else "ok " ++ hexOrDash (marshalTimePreAgg c.toNat)
+            | _, _ => "bad-op"
+      | _ => "bad-op")
+  | "preaggdec" =>
+    some (match rest.splitOn " " with
+      | [ty, hex] =>
+        match hexBytes? hex with
+        | none => "bad-op"
+        | some bs =>
+          match ty with
+          | "i" =>
+            (match unmarshalIntPreAgg bs with
+              | none => "err"
+              | some (s, r) => "pa " ++ showI64s [s.min, s.max, s.minT, s.maxT, s.sum, s.count] ++ " " ++ toString r.length)
+          | "f" =>
+            (match unmarshalFloatPreAgg bs with
+              | none => "err"
+              | some (s, r) =>
+                "pa " ++ showI64s [s.minV.toInt, s.maxV.toInt, s.minT, s.maxT, s.sumV.toInt, s.count] ++ " "
+                  ++ toString r.length)
+          | "b" =>
+            (match unmarshalBoolPreAgg bs with
+              | none => "err"
+              | some (s, r) => "pa " ++ showI64s [s.count, s.minT, s.maxT, s.minV, s.maxV] ++ " " ++ toString r.length)
+          | "s" =>
+            (match unmarshalStringPreAgg bs with
+              | none => "err"
+              | some (c, r) => "pa " ++ toString c ++ " " ++ toString r.length)
+          | "t" =>
+            (match unmarshalTimePreAgg bs with
+              | none => "err"
+              | some (c, r) => "pa " ++ toString c ++ " " ++ toString r.length)
+          | _ => "bad-op"
+      | _ => "bad-op")
+  | _ => none
+
 def step (line : String) : String :=
   let (op, rest) := splitOp line
   match op with
@@ -693,7 +760,7 @@ def step (line : String) : String :=
       | none => "err"
       | some [] => "bits -"
       | some vs => "bits " ++ String.ofList (vs.map fun b => if b then '1' else '0')
-  | _ => ((stepMeta op rest).orElse fun _ => stepWire op rest).getD "bad-op"
+  | _ => (((stepMeta op rest).orElse fun _ => stepWire op rest).orElse fun _ => stepPreAgg op rest).getD "bad-op"
 
 /-- read up to `n` lines. -/
 partial def readChunk (h : IO.FS.Stream) (n : Nat) (acc : Array String) : IO (Array String × Bool) := do
